@@ -5,7 +5,7 @@ import Fundraising.Proofs.EscrowBasic
 -/
 set_option linter.unusedSimpArgs false
 set_option linter.unusedVariables false
-namespace Fundraising
+namespace Fundraising.EscrowInv
 
 theorem status_of_beq {a b : Status} (h : (a == b) = true) : a = b := by
   simpa using h
@@ -24,8 +24,8 @@ theorem cancel_good {c c' : Ctx} {signer : Acc} {aid : Nat}
   · intro x j hx hj d
     rw [setView_bank, h2, h1]
     simp only [move_apply]
-    have e1 : x ≠ Addr.sell aid := by intro e; subst e; simp [Addr.esc] at hx; exact hj hx.symm
-    have e2 : x ≠ Addr.user v.a.auctioneer := by intro e; subst e; simp [Addr.esc] at hx
+    have e1 : x ≠ Addr.sell aid := by intro e; subst e; simp [escIdx] at hx; exact hj hx.symm
+    have e2 : x ≠ Addr.user v.a.auctioneer := by intro e; subst e; simp [escIdx] at hx
     simp [e1, e2]
   · intro _
     refine ⟨rfl, rfl, ?_, ?_, ?_⟩
@@ -310,7 +310,7 @@ theorem upd_good {c c' : Ctx} {aid : Nat} {bidder : Acc} {cap : Int}
 
 theorem create_spec {c c' : Ctx} {m : CreateMsg} (h : createAuction c m = .ok c') :
     ∃ (b' : Bank) (v : AView), c'.s = { c.s with bank := b', views := c.s.views ++ [v] } ∧
-      (∀ x j, x.esc = some j → j ≠ c.s.views.length → ∀ d, b' x d = c.s.bank x d) ∧
+      (∀ x j, escIdx x = some j → j ≠ c.s.views.length → ∀ d, b' x d = c.s.bank x d) ∧
       ∀ d, slackSell c'.s c.s.views.length v d = c.s.bank (.sell c.s.views.length) d ∧
         slackPay c'.s c.s.views.length v d = c.s.bank (.pay c.s.views.length) d ∧
         slackVest c'.s c.s.views.length v d = c.s.bank (.vest c.s.views.length) d := by
@@ -361,4 +361,4 @@ theorem deliver_cases {c c' : Ctx} {m : Msg} (h : deliver c m = .ok c') :
     obtain ⟨_, _, _, _, _, _, rfl⟩ := h
     exact Or.inr (Or.inr ⟨rfl, rfl⟩)
 
-end Fundraising
+end Fundraising.EscrowInv
